@@ -85,3 +85,70 @@ def main_costs():
 
 if __name__ == "__main__":
     main()
+
+
+def _cmp(tag, net, net2, fails, kw):
+    pp.runpp(net, **kw)
+    try:
+        pp.runpp(net2, **kw)
+    except Exception as e:
+        fails.append(f"{tag}: the power flow of the round trip network fails ({type(e).__name__}); original slack power "
+                     f"{net.res_ext_grid.p_mw.sum():.5f} MW")
+        return
+    p1, p2 = net.res_ext_grid.p_mw.sum(), net2.res_ext_grid.p_mw.sum()
+    v1, v2 = np.sort(net.res_bus.vm_pu.values), np.sort(net2.res_bus.vm_pu.values)
+    if abs(p1 - p2) > 1e-5 or len(v1) != len(v2) or np.max(np.abs(v1 - v2)) > 1e-6:
+        fails.append(f"{tag}: slack power {p1:.5f} -> {p2:.5f} MW, max |dVm| = {np.max(np.abs(v1 - v2)) if len(v1) == len(v2) else float('nan'):.2e} pu")
+
+
+def main_more():
+    """lines with a shunt conductance, the MATPOWER file round trip of a transformer with iron losses, a network with cost data (to_ppc in OPF
+    mode writes RATE_A = 0 for branches without a loading limit)"""
+    import os
+    import shutil
+    import tempfile
+    import logging
+    logging.disable(logging.CRITICAL)
+    from pandapower.converter.matpower import to_mpc, from_mpc
+    fails = []
+    kw = dict(calculate_voltage_angles=True, trafo_model="pi")
+
+    def base(g_us=0., std=False, cost=False):
+        net = pp.create_empty_network()
+        b = pp.create_buses(net, 2, 110.); c = pp.create_buses(net, 2, 20.)
+        pp.create_ext_grid(net, b[0], vm_pu=1.02, min_p_mw=-100, max_p_mw=100, min_q_mvar=-100, max_q_mvar=100)
+        pp.create_line_from_parameters(net, b[0], b[1], 20, 0.06, 0.14, 10, 0.5, g_us_per_km=g_us)
+        tr = dict(sn_mva=25, vn_hv_kv=110, vn_lv_kv=20, vkr_percent=1., vk_percent=12., pfe_kw=14. if std else 0., i0_percent=0.07 if std else 0.,
+                  tap_neutral=0, tap_step_percent=1.5, tap_side="hv", tap_min=-9, tap_max=9, tap_changer_type="Ratio")
+        pp.create_transformer_from_parameters(net, b[1], c[0], tap_pos=0 if cost else 2, **tr)
+        pp.create_transformer_from_parameters(net, b[1], c[0], tap_pos=2, **tr)
+        pp.create_line_from_parameters(net, c[0], c[1], 3, 0.2, 0.12, 200, 0.3, g_us_per_km=g_us / 4)
+        pp.create_load(net, c[1], p_mw=10, q_mvar=2)
+        if cost:
+            pp.create_poly_cost(net, 0, "ext_grid", cp1_eur_per_mw=1.)
+        return net
+    # (1) line conductance through the ppc dict
+    net = base(g_us=200.)
+    _cmp("lines with g_us_per_km = 200 / 50 through to_ppc / from_ppc", net, from_ppc(to_ppc(net, init="flat", **kw), f_hz=net.f_hz), fails, kw)
+    # (2) MATPOWER file
+    d = tempfile.mkdtemp()
+    try:
+        for tag, net in (("transformers with pfe_kw = 14 through the MATPOWER file", base(std=True)),
+                         ("lines with g_us_per_km = 200 / 50 through the MATPOWER file", base(g_us=200.))):
+            fn = os.path.join(d, "case.mat")
+            to_mpc(net, fn, init="flat", **kw)
+            _cmp(tag, net, from_mpc(fn, f_hz=net.f_hz), fails, kw)
+    finally:
+        shutil.rmtree(d, ignore_errors=True)
+    # (3) cost data: OPF mode of to_ppc
+    net = base(cost=True)
+    try:
+        net2 = from_ppc(to_ppc(net, init="flat", **kw), f_hz=net.f_hz)
+        _cmp("network with cost data (RATE_A = 0 for the transformer at its neutral tap)", net, net2, fails, kw)
+    except Exception as e:
+        fails.append(f"network with cost data: from_ppc(to_ppc(net)) raises {type(e).__name__}: {str(e)[:80]}")
+    for f in fails:
+        print("REPRODUCED:", f)
+    if not fails:
+        print("not reproduced: the round trips keep the power flow results")
+    sys.exit(1 if fails else 0)
